@@ -1,0 +1,48 @@
+//go:build verif
+
+package generate
+
+// Verification hooks, compiled only with -tags verif: the verification harness
+// reads, for one Generate call, the (package path, alias) pairs in the order
+// addImportFor chose them.  Entries are keyed by goroutine, since the harness
+// runs several Generate calls at once.
+
+import (
+	"bytes"
+	"runtime"
+	"strconv"
+	"sync"
+)
+
+var (
+	verifImportMu  sync.Mutex
+	verifImportLog = map[int64][][2]string{}
+)
+
+func verifGoroutineID() int64 {
+	var buf [64]byte
+	b := buf[:runtime.Stack(buf[:], false)]
+	b = bytes.TrimPrefix(b, []byte("goroutine "))
+	if i := bytes.IndexByte(b, ' '); i >= 0 {
+		b = b[:i]
+	}
+	id, _ := strconv.ParseInt(string(b), 10, 64)
+	return id
+}
+
+func verifImport(pkgPath, alias string) {
+	id := verifGoroutineID()
+	verifImportMu.Lock()
+	verifImportLog[id] = append(verifImportLog[id], [2]string{pkgPath, alias})
+	verifImportMu.Unlock()
+}
+
+// VerifTakeImportLog returns and forgets what the calling goroutine logged.
+func VerifTakeImportLog() [][2]string {
+	id := verifGoroutineID()
+	verifImportMu.Lock()
+	defer verifImportMu.Unlock()
+	l := verifImportLog[id]
+	delete(verifImportLog, id)
+	return l
+}
